@@ -11,6 +11,7 @@
 #include <vector>
 #include <cstdint>
 #include <cstdlib>
+#include <memory>
 #include "givinteger.h"
 #include "montgomery-int32.h"
 
@@ -20,6 +21,7 @@ typedef Field::Element Elt;
 
 // access to the protected reduction functions and constants
 struct Open : public Field {
+    Open() : Field() {}
     Open(uint32_t p) : Field(p) {}
     Open(const Field& F) : Field(F) {}
     Open& operator=(const Open& F) { Field::operator=(F); return *this; }
@@ -34,6 +36,22 @@ struct Open : public Field {
     uint32_t B3p() const { return _B3p; }
     uint32_t nim() const { return _nim; }
 };
+
+// Every way of obtaining a ring object with modulus p (line prefix "@<how>:").  The object is built IN PLACE on the heap and
+// never returned by value, so that no copy constructor repairs a field an assignment left stale.
+static Open* obtain(const std::string& how, uint32_t p) {
+    const uint32_t other = (p == 7) ? 11 : 7, big = (p == 40499) ? 40493 : 40499;
+    if (how == "" || how == "ctor") return new Open(p);
+    if (how == "copy") { Open G(p); return new Open(G); }
+    if (how == "asgS") { Open* W = new Open(other); Open G(p); *W = G; return W; }          // assigned over a ring of another (small) modulus
+    if (how == "asgL") { Open* W = new Open(big); Open G(p); *W = G; return W; }            // ... of a large modulus
+    if (how == "dflt") { Open* W = new Open(); Open G(p); *W = G; return W; }               // default-constructed, then assigned
+    if (how == "self") { Open* W = new Open(p); Open& A = *W; *W = A; return W; }           // self-assignment
+    if (how == "twice") { Open* W = new Open(other); { Open G(big); *W = G; } { Open G(p); *W = G; } return W; }
+    if (how == "chain") { Open* W = new Open(other); Open G(p); Open H(big); H = G; *W = H; return W; }   // assigned from an assigned ring
+    if (how == "cpasg") { Open* W0 = new Open(other); Open G(p); *W0 = G; Open* W = new Open(*W0); delete W0; return W; }   // copy of an assigned ring
+    return nullptr;
+}
 
 static uint64_t binv_of(uint64_t p) {          // brute force: the x in [0,p) with 65536*x = 1 mod p
     for (uint64_t x = 0; x < p; ++x) if ((B32 % p) * x % p == 1 % p) return x;
@@ -86,6 +104,19 @@ static void check_unary(Fail& f, const Open& F, uint64_t p, uint64_t Bi, uint32_
     uint32_t u32v; CHECK(f, "convert.u32", F.convert(u32v, a), va, a, b, c);
     CHECK(f, "init.uint32+convert", F.convert(u32v, F.init(r, (uint32_t)a)), a, a, b, c);   // identity on [0,p)
     CHECK(f, "init.uint32", F.init(r, (uint32_t)a), (uint64_t)a * (B32 % p) % p, a, b, c);
+    // initialising from EVERY native source type and converting back is the identity on [0,p); converting out to every target type
+    CHECK(f, "init.double+convert", F.convert(u32v, F.init(r, (double)a)), a, a, b, c);
+    CHECK(f, "init.float+convert", F.convert(u32v, F.init(r, (float)a)), a, a, b, c);
+    CHECK(f, "init.int32+convert", F.convert(u32v, F.init(r, (int32_t)a)), a, a, b, c);
+    CHECK(f, "init.int64+convert", F.convert(u32v, F.init(r, (int64_t)a)), a, a, b, c);
+    CHECK(f, "init.uint64+convert", F.convert(u32v, F.init(r, (uint64_t)a)), a, a, b, c);
+    CHECK(f, "init.uint16+convert", F.convert(u32v, F.init(r, (uint16_t)a)), a, a, b, c);
+    CHECK(f, "init.double", F.init(r, (double)a), (uint64_t)a * (B32 % p) % p, a, b, c);
+    { double dv; CHECK(f, "convert.double", (uint64_t)F.convert(dv, a), va, a, b, c); }
+    { float fv; CHECK(f, "convert.float", (uint64_t)F.convert(fv, a), va, a, b, c); }
+    { int64_t iv; CHECK(f, "convert.i64", (uint64_t)F.convert(iv, a), va, a, b, c); }
+    { uint64_t uv; CHECK(f, "convert.u64", F.convert(uv, a), va, a, b, c); }
+    { int32_t iv; CHECK(f, "convert.i32", (uint64_t)F.convert(iv, a), va, a, b, c); }
     CHECK(f, "redc", F.x_redc(a), va, a, b, c);
     CHECK(f, "redcs", F.x_redcs(a), va, a, b, c);
     CHECK(f, "isUnit", (uint64_t)F.isUnit(a), (uint64_t)(gcd64(a, p) == 1), a, b, c);
@@ -148,18 +179,24 @@ int main(int argc, char** argv) {
             Fail f;
             if (v == "sweep.allp") {              // sweep.allp lo hi : every odd p in [lo,hi], boundary operands
                 uint64_t hi; in >> hi;
+                Open W(3);                         // one ring object re-assigned for every modulus (over the previous modulus)
                 for (uint64_t q = p | 1; q <= hi && !f.bad; q += 2) {
                     uint64_t p = q; Open F((uint32_t)p); uint64_t Bi = binv_of(p);
-                    check_ctor(f, F, p);
+                    W = F; Open D; D = F;          // assigned over another modulus / default-constructed then assigned
+                    check_ctor(f, F, p); check_ctor(f, W, p); check_ctor(f, D, p);
                     std::vector<uint32_t> s = boundary(p);
-                    for (uint32_t a : s) { check_unary(f, F, p, Bi, a, true);
+                    for (uint32_t a : s) { check_unary(f, F, p, Bi, a, true); check_unary(f, W, p, Bi, a, true); check_unary(f, D, p, Bi, a, false);
+                        for (uint32_t b : s) { check_ops(f, W, p, Bi, a, b, s[(a + b) % s.size()], true); check_ops(f, D, p, Bi, a, b, 0, false); }
                         for (uint32_t b : s) for (uint32_t c : s) check_ops(f, F, p, Bi, a, b, c, true); }
                 }
             } else if (v == "sweep.elts") {       // sweep.elts lo hi : every odd p, EVERY element: unary forms, init/convert identity
                 uint64_t hi; int winv; in >> hi >> winv;
+                Open W(40499);                     // every second modulus runs on a ring ASSIGNED over the previous modulus
                 for (uint64_t q = p | 1; q <= hi && !f.bad; q += 2) {
                     uint64_t p = q; Open F((uint32_t)p); uint64_t Bi = binv_of(p);
-                    for (uint32_t a = 0; a < p; ++a) check_unary(f, F, p, Bi, a, winv != 0);
+                    W = F;
+                    const Open& R = ((q >> 1) & 1) ? W : F;
+                    for (uint32_t a = 0; a < p; ++a) check_unary(f, R, p, Bi, a, winv != 0);
                 }
             } else if (v == "sweep.pairs") {      // sweep.pairs p alo ahi : all (a,b), a in [alo,ahi), b in [0,p)
                 uint64_t alo, ahi; in >> alo >> ahi; if (ahi > p) ahi = p;
@@ -179,7 +216,11 @@ int main(int argc, char** argv) {
             if (f.bad) std::cout << f.s.str() << "\n"; else std::cout << "OK " << f.n << "\n";
             continue;
         }
-        Open F((uint32_t)p);
+        std::string how;
+        if (!v.empty() && v[0] == '@') { size_t c = v.find(':'); how = v.substr(1, c - 1); v = v.substr(c + 1); }
+        std::unique_ptr<Open> FP(obtain(how, (uint32_t)p));
+        if (!FP) { std::cout << "UNKNOWN-WAY\n"; continue; }
+        Open& F = *FP;
         std::vector<std::string> a; std::string t; while (in >> t) a.push_back(t);
         auto U = [&](size_t i) -> uint32_t { return (uint32_t)std::strtoull(a.at(i).c_str(), 0, 10); };
         Elt r = 0; bool haveElt = true;
@@ -251,6 +292,8 @@ int main(int argc, char** argv) {
         else if (v == "convert.i32") { int32_t x; out << F.convert(x, U(0)); haveElt = false; }
         else if (v == "convert.i64") { int64_t x; out << F.convert(x, U(0)); haveElt = false; }
         else if (v == "convert.u64") { uint64_t x; out << F.convert(x, U(0)); haveElt = false; }
+        else if (v == "convert.float") { float x; out << (int64_t)F.convert(x, U(0)); haveElt = false; }
+        else if (v == "convert.u16") { uint16_t x; out << F.convert(x, U(0)); haveElt = false; }
         else if (v == "convert.double") { double x; out << (int64_t)F.convert(x, U(0)); haveElt = false; }
         else if (v == "convert.integer") { Integer x; out << F.convert(x, U(0)); haveElt = false; }
         else if (v == "write") { F.write(out, U(0)); haveElt = false; }
